@@ -141,6 +141,15 @@ func newFakeService(name string) *fakeService {
 
 func (s *fakeService) addMethod(name string, kind int, idem descriptorpb.MethodOptions_IdempotencyLevel, hasIdem bool) *fakeMethod {
 	in := newFakeMsgDesc(s.name+"."+name+"Request", &fakeField{name: "name", kind: protoreflect.StringKind}, &fakeField{name: "id", kind: protoreflect.StringKind})
+	return s.addMethodIn(name, kind, idem, hasIdem, in)
+}
+
+// fakeHTTPBodyDesc has the name and the two fields of google.api.HttpBody that the REST binding looks at.
+func fakeHTTPBodyDesc() *fakeMsgDesc {
+	return newFakeMsgDesc("google.api.HttpBody", &fakeField{name: "content_type", jsonName: "contentType", kind: protoreflect.StringKind}, &fakeField{name: "data", kind: protoreflect.BytesKind})
+}
+
+func (s *fakeService) addMethodIn(name string, kind int, idem descriptorpb.MethodOptions_IdempotencyLevel, hasIdem bool, in *fakeMsgDesc) *fakeMethod {
 	out := newFakeMsgDesc(s.name + "." + name + "Response")
 	opts := &descriptorpb.MethodOptions{}
 	if hasIdem {
@@ -186,6 +195,9 @@ func (m *fakeMsg) Get(fd protoreflect.FieldDescriptor) protoreflect.Value {
 	if i < 0 {
 		panic("fakeMsg.Get: unknown field")
 	}
+	if fd.Kind() == protoreflect.BytesKind {
+		return protoreflect.ValueOfBytes([]byte(m.fvals[i]))
+	}
 	return protoreflect.ValueOfString(m.fvals[i])
 }
 
@@ -194,7 +206,11 @@ func (m *fakeMsg) Set(fd protoreflect.FieldDescriptor, v protoreflect.Value) {
 	if i < 0 {
 		panic("fakeMsg.Set: unknown field")
 	}
-	m.fvals[i] = v.String()
+	if fd.Kind() == protoreflect.BytesKind {
+		m.fvals[i] = string(v.Bytes())
+	} else {
+		m.fvals[i] = v.String()
+	}
 	m.fset[i] = true
 }
 
